@@ -23,8 +23,9 @@ parser.c / scanner.c are what bison/flex generate from the current parser.y / sc
     on, and the members it stores.
 
 Output: lean/NeverModel/Gen/OwnTab.lean.  A statement or expression shape the walker does not know raises `Unrecognised`
-(a broken tie): nothing is ever skipped silently.  `generate()` returns the table with a `problems` list; with problems the
-previous Lean file is left alone and the caller (checks/c16.py) reports the broken tie."""
+(a broken tie): nothing is ever skipped silently.  `generate()` returns the table with a `problems` list; the Lean file carries
+the same list (`OwnTab.problems`, so `own_table_consistent` fails) and the caller (checks/c16.py) reports the broken tie.
+Also: for every function, the local variables that receive a fresh allocation and whether some path loses it (class `Esc`)."""
 import os, sys, json, subprocess, glob, hashlib, pickle, re
 from concurrent.futures import ProcessPoolExecutor
 
